@@ -19,13 +19,13 @@ struct Rng
 struct KV
 {
     uint64_t first;
-    uint64_t second;
+    VAL_T    second;
 };
 struct TKV
 {
     std::chrono::milliseconds ttl;
     uint64_t                  k;
-    uint64_t                  v;
+    VAL_T                     v;
 };
 #if T_PEEK_KIND == 1
 #define X_PEEK_ARG(pk) , ((pk) ? cappuccino::peek::yes : cappuccino::peek::no)
@@ -39,13 +39,13 @@ static inline size_t x_insert_range(C& c, const Ev* e, size_t n, uint8_t a)
 {
 #if T_TTL == 1
     Rng<TKV, RMAX> r;
-    for (size_t i = 0; i < n; ++i) { r.a[i].ttl = std::chrono::milliseconds{e[i].ttl}; r.a[i].k = e[i].k; r.a[i].v = e[i].v; }
+    for (size_t i = 0; i < n; ++i) { r.a[i].ttl = std::chrono::milliseconds{e[i].ttl}; r.a[i].k = e[i].k; r.a[i].v = VAL_T(e[i].v); }
 #elif !T_VALUE
     Rng<uint64_t, RMAX> r;
     for (size_t i = 0; i < n; ++i) r.a[i] = e[i].k;
 #else
     Rng<KV, RMAX> r;
-    for (size_t i = 0; i < n; ++i) { r.a[i].first = e[i].k; r.a[i].second = e[i].v; }
+    for (size_t i = 0; i < n; ++i) { r.a[i].first = e[i].k; r.a[i].second = VAL_T(e[i].v); }
 #endif
     r.n = n;
     return c.insert_range(r, (cappuccino::allow)a);
@@ -73,7 +73,7 @@ static inline size_t x_find_range(C& c, const Ev* e, size_t n, bool pk, Res* out
             if (i >= n || res[i].first != e[i].k) *keys_ok = false;
 #if T_VALUE
             out[i].ok  = res[i].second.has_value();
-            out[i].val = out[i].ok ? *res[i].second : 0;
+            out[i].val = out[i].ok ? val_u(*res[i].second) : 0;
 #else
             out[i].ok  = res[i].second;
             out[i].val = 0;
@@ -85,7 +85,7 @@ static inline void x_find_range_fill(C& c, const Ev* e, size_t n, bool pk, Res* 
 {
     (void)pk;
 #if T_VALUE
-    Rng<std::pair<uint64_t, std::optional<uint64_t>>, RMAX> r;
+    Rng<std::pair<uint64_t, std::optional<VAL_T>>, RMAX> r;
 #else
     Rng<std::pair<uint64_t, bool>, RMAX> r;
 #endif
@@ -99,7 +99,7 @@ static inline void x_find_range_fill(C& c, const Ev* e, size_t n, bool pk, Res* 
             if (r.a[i].first != e[i].k) *keys_ok = false;
 #if T_VALUE
             out[i].ok  = r.a[i].second.has_value();
-            out[i].val = out[i].ok ? *r.a[i].second : 0;
+            out[i].val = out[i].ok ? val_u(*r.a[i].second) : 0;
 #else
             out[i].ok  = r.a[i].second;
             out[i].val = 0;
